@@ -46,6 +46,7 @@ func (m *Module) RunWorker(name string, fn func(context.Context) error) error {
 	atomic.AddInt32(m.workerCnt, 1)
 	defer func() {
 		atomic.AddInt32(m.workerCnt, -1)
+		verifPoint("work.dec", m)
 		m.checkIfStopComplete()
 	}()
 
@@ -67,6 +68,7 @@ func (m *Module) runServiceWorker(name string, backoffDuration time.Duration, fn
 	atomic.AddInt32(m.workerCnt, 1)
 	defer func() {
 		atomic.AddInt32(m.workerCnt, -1)
+		verifPoint("work.dec", m)
 		m.checkIfStopComplete()
 	}()
 
@@ -177,6 +179,7 @@ func (m *Module) startCtrlFn(name string, fn func() error) chan error {
 
 			// Signal finish.
 			m.ctrlFuncRunning.UnSet()
+			verifPoint("ctrl.unset", m)
 			m.checkIfStopComplete()
 		}()
 
